@@ -14,6 +14,9 @@
     t.set <key> <types> <node> <decl> <via> <forest>  → ok
     t.export <module|None>                            → ok <rows> / <error>      rows: key>S>types>flat | key>R>node>decl>origin>via>flat joined by `|`
     t.import <rows>                                   → ok / <error>  (the table keeps the rows imported before the error, like the real loop)
+    expandi <iforest>                                 → flat            iforest: ( id:keyhex child … ) …, the same id = the same object
+    temp <inode> <n>                                  → <inode>         to_temporary with new object ids n, n+1, …
+    write <inode> <n> <path> <inode value>            → E <inode> T <inode> / IndexError   seqs.update(temp.attrs, path, value, 'attrs') seen on the entry and the copy
     t.unload <module> | t.complete <module> (on_complete) | t.completed <module> | t.has <module> | t.keys | t.get <key>
 -/
 import Tranp.Driver.Common
@@ -52,6 +55,40 @@ mutual
 partial def ownAttr : RNode → Attr
   | .mk k own _ => .mk k (own.map ownAttr)
 end
+
+
+partial def parseINodes : List String → List IAttr → Option (List IAttr × List String)
+  | [], acc => some (acc.reverse, [])
+  | ")" :: rest, acc => some (acc.reverse, ")" :: rest)
+  | "(" :: ik :: rest, acc =>
+    match ik.splitOn ":" with
+    | [i, k] =>
+      match i.toNat?, Str.unhex k with
+      | some i, some key =>
+        match parseINodes rest [] with
+        | some (cs, ")" :: rest') => parseINodes rest' (.mk i key cs :: acc)
+        | _ => none
+      | _, _ => none
+    | _ => none
+  | _, _ => none
+
+def parseIForest (s : String) : Option IForest :=
+  if s == "-" then some [] else
+  match parseINodes ((s.splitOn " ").filter (· ≠ "")) [] with
+  | some (f, []) => some f
+  | _ => none
+
+mutual
+partial def showIAttr : IAttr → String
+  | .mk i k cs => if cs.isEmpty then s!"( {i}:{Str.hex k} )" else s!"( {i}:{Str.hex k} {showIForest' cs} )"
+partial def showIForest' (f : List IAttr) : String := " ".intercalate (f.map showIAttr)
+end
+
+def iattrs : IAttr → List IAttr
+  | .mk _ _ cs => cs
+
+def iid : IAttr → Nat
+  | .mk i _ _ => i
 
 /-- canonical decimal path only (what `str(index)` produces): no empty parts, no leading zeros -/
 def parsePath (s : String) : Option Path :=
@@ -136,6 +173,27 @@ def step (st : St) : List String → St × String
     match parseForest f with
     | some f => (st, showFlat (expand f))
     | none => (st, "bad-op")
+  | ["expandi", f] =>
+    match parseIForest f with
+    | some f => (st, showFlat (expandI f))
+    | none => (st, "bad-op")
+  | ["temp", a, n] =>
+    match parseIForest a, n.toNat? with
+    | some [a], some n => (st, showIAttr (toTemp a n).1)
+    | _, _ => (st, "bad-op")
+  | ["write", a, n, p, v] =>
+    match parseIForest a, n.toNat?, parsePath p, parseIForest v with
+    | some [a], some n, some p, some [v] =>
+      let t := (toTemp a n).1
+      let j := p.getLast!
+      let container : Option IAttr := if p.length == 1 then some t else objectAt (iattrs t) p.dropLast
+      match container with
+      | some c =>
+        if j < (iattrs c).length then
+          (st, s!"E {showIAttr (setSlot (iid c) j v a)} T {showIAttr (setSlot (iid c) j v t)}")
+        else (st, "IndexError")
+      | none => (st, "IndexError")
+    | _, _, _, _ => (st, "bad-op")
   | ["flatten", f] =>
     match parseForest f with
     | some f => (st, showFlat (flatten f))
